@@ -41,7 +41,7 @@ func (q *gworld) recordSend(ctx *gatewaytypes.Context, pkt *frame.SendPacket, ne
 	if newBatch {
 		c.batchNo++
 	}
-	c.hSends = append(c.hSends, hSend{seq: pkt.ClientSeq, msgNo: pkt.ClientMsgNo, enc: enc, batch: c.batchNo})
+	c.hSends = append(c.hSends, hSend{seq: pkt.ClientSeq, msgNo: pkt.ClientMsgNo, enc: enc, batch: c.batchNo, ref: pkt, ver: sessionInVersion(ctx.Session)})
 	c.mu.Unlock()
 	return c
 }
@@ -53,7 +53,7 @@ func (q *gworld) recordOther(ctx *gatewaytypes.Context, f frame.Frame) (*simConn
 	}
 	enc := q.encodeSeen(ctx, f)
 	c.mu.Lock()
-	c.hOthers = append(c.hOthers, hOther{typ: f.GetFrameType(), enc: enc})
+	c.hOthers = append(c.hOthers, hOther{typ: f.GetFrameType(), enc: enc, ref: f, ver: sessionInVersion(ctx.Session)})
 	n := len(c.hOthers)
 	c.mu.Unlock()
 	return c, n
